@@ -49,6 +49,9 @@ pub struct Plan {
     /// arm the TLS-destructor probe on the root thread at its start
     pub root_probe_early: bool,
     pub root_api_builder: bool,
+    /// T0 is the PROCESS'S MAIN THREAD (executed inline by the runner).  One
+    /// such run per process: the main thread's TLS outlives the run.
+    pub root_is_main: bool,
     pub steps: Vec<Step>,
     /// informational (seed, index, swarm configuration)
     pub note: String,
@@ -161,10 +164,11 @@ impl Plan {
             }
         }
         s.push_str(&format!(
-            "opt ref={} rootprobe={} rootapi={}\n",
+            "opt ref={} rootprobe={} rootapi={}{}\n",
             if self.ref_per_event { "per-event" } else { "shared" },
             if self.root_probe_early { "early" } else { "none" },
             if self.root_api_builder { "builder" } else { "std" },
+            if self.root_is_main { " rootmain=yes" } else { "" },
         ));
         for st in &self.steps {
             s.push_str(&st.to_text());
@@ -235,6 +239,8 @@ impl Session {
                         "rootprobe=none" => cur.root_probe_early = false,
                         "rootapi=builder" => cur.root_api_builder = true,
                         "rootapi=std" => cur.root_api_builder = false,
+                        "rootmain=yes" => cur.root_is_main = true,
+                        "rootmain=no" => cur.root_is_main = false,
                         other => return Err(format!("bad opt {}", other)),
                     }
                 }
